@@ -44,6 +44,7 @@ type vrtConn struct {
 	writesAfterClose int
 	wcap       int // > 0: the peer has stopped reading - Write blocks once wcap bytes are pending
 	hold       bool // the peer's receive window is closed altogether: every Write waits
+	maxBlocked int  // the largest number of goroutines that were blocked in Write at the same time
 	wseq       int
 	wblocked   []int // tickets of the goroutines blocked in Write
 	eofWithLast bool // the last bytes and the end of the stream are delivered by one Read (n > 0, io.EOF), as crypto/tls does
@@ -94,6 +95,9 @@ func (c *vrtConn) Write(b []byte) (int, error) {
 		c.wseq++
 		my := c.wseq
 		c.wblocked = append(c.wblocked, my)
+		if len(c.wblocked) > c.maxBlocked {
+			c.maxBlocked = len(c.wblocked)
+		}
 		for !c.closed && !c.peerClosed && (c.hold || (c.wcap > 0 && len(c.out) >= c.wcap) || c.wblocked[len(c.wblocked)-1] != my) {
 			c.cond.Wait()
 		}
@@ -193,6 +197,12 @@ func (c *vrtConn) peerHold(h bool) {
 	c.hold = h
 	c.cond.Broadcast()
 	c.mu.Unlock()
+}
+
+func (c *vrtConn) blockedWriters() int {
+	c.mu.Lock()
+	defer c.mu.Unlock()
+	return c.maxBlocked
 }
 
 func (c *vrtConn) isClosed() bool {
